@@ -45,3 +45,57 @@ mod c04 {
         if let Ok(c) = s { assert!(i64::from(c) == w); }
     }
 }
+
+#[cfg(kani)]
+mod c03 {
+    use pallas_codec::minicbor;
+    use pallas_codec::utils::AnyUInt;
+
+    /// K-complete: every byte string (a CBOR unsigned head is at most 9 bytes) that decodes as AnyUInt re-encodes
+    /// to exactly the bytes that were consumed (including non-minimal heads).
+    #[kani::proof]
+    #[kani::unwind(12)]
+    fn c03_anyuint_reencodes_consumed_bytes() {
+        let bytes: [u8; 9] = kani::any();
+        let mut d = minicbor::Decoder::new(&bytes);
+        let r: Result<AnyUInt, _> = d.decode();
+        if let Ok(v) = r {
+            let n = d.position();
+            assert!(n >= 1 && n <= 9);
+            let mut out = [0u8; 9];
+            let mut cur = minicbor::encode::write::Cursor::new(&mut out[..]);
+            minicbor::encode(&v, &mut cur).unwrap();
+            let m = cur.position();
+            assert!(m == n, "re-encoding has a different length than the bytes consumed");
+            let mut i = 0;
+            while i < 9 {
+                if i < n { assert!(cur.get_ref()[i] == bytes[i], "re-encoding differs from the bytes consumed"); }
+                i += 1;
+            }
+        }
+        kani::cover!(r.is_ok() && d.position() == 9);
+        kani::cover!(r.is_ok() && d.position() == 2);
+    }
+
+    /// K-complete (loop-free value domain): decode(encode(v)) == v for every AnyUInt whose MajorByte payload is a
+    /// real major-type-0 immediate (< 24)
+    #[kani::proof]
+    #[kani::unwind(12)]
+    fn c03_anyuint_value_roundtrip() {
+        let k: u8 = kani::any();
+        let x: u64 = kani::any();
+        let v = match k % 5 {
+            0 => { kani::assume(x < 24); AnyUInt::MajorByte(x as u8) }
+            1 => AnyUInt::U8(x as u8),
+            2 => AnyUInt::U16(x as u16),
+            3 => AnyUInt::U32(x as u32),
+            _ => AnyUInt::U64(x),
+        };
+        let mut out = [0u8; 9];
+        let mut cur = minicbor::encode::write::Cursor::new(&mut out[..]);
+        minicbor::encode(&v, &mut cur).unwrap();
+        let n = cur.position();
+        let back: AnyUInt = minicbor::decode(&out[..n]).unwrap();
+        assert!(back == v, "decode(encode(v)) != v");
+    }
+}
